@@ -35,4 +35,10 @@ impl URL {
     pub fn parse(url: &str) -> Result<UrlComponents, String> {
         parse_url(url)
     }
+
+    /// true if the path contains a parent directory segment (`..`), such a path
+    /// may point outside of the directory it is appended to
+    pub fn has_parent_directory_segment(path: &str) -> bool {
+        path.split(|c| c == '/' || c == '\\').any(|segment| segment == "..")
+    }
 }
